@@ -129,6 +129,21 @@ IsV4In16(ip) == /\ Len(ip) = 16 /\ \A i \in 1..10 : ip[i] = 0
 To4(ip) == IF IsV4In16(ip) THEN SubSeq(ip, 13, 16) ELSE ip
 ExpIPs(ips) == [i \in DOMAIN ips |-> To4(ips[i])]
 
+(* IP ranges of name constraints ([ip, mask]): address and mask of equal length (4 or 16), or
+   an IPv4 network written with the 16-byte form of its address and a 4-byte mask
+   (net.IPNet{IP: net.ParseIP("10.0.0.0"), Mask: net.CIDRMask(8, 32)} - a well-formed net.IPNet).
+   The latter denotes the IPv4 network: reported as 4+4 bytes, or (equivalently) as 16+16 with
+   the mask extended by ones. *)
+NetInDomain(n) == \/ Len(n.ip) = Len(n.mask) /\ Len(n.ip) \in {4, 16}
+                  \/ IsV4In16(n.ip) /\ Len(n.mask) = 4
+MixedNet(n) == Len(n.ip) = 16 /\ Len(n.mask) = 4
+Ones12 == [i \in 1..12 |-> 255]
+NetAs4(n) == IF MixedNet(n) THEN [ip |-> To4(n.ip), mask |-> n.mask] ELSE n
+NetAs16(n) == IF MixedNet(n) THEN [ip |-> n.ip, mask |-> Ones12 \o n.mask] ELSE n
+ExpNets(nets) == IF \E i \in DOMAIN nets : MixedNet(nets[i])
+                 THEN <<[i \in DOMAIN nets |-> NetAs4(nets[i])], [i \in DOMAIN nets |-> NetAs16(nets[i])]>>
+                 ELSE <<nets>>
+
 -----------------------------------------------------------------------------
 (* extensions *)
 
@@ -202,6 +217,8 @@ HasBit(n, bit) == (n \div bit) % 2 = 1
 CertInDomain(t) == /\ AlgInDomain(t.signerKey, t.sigAlg)
                    /\ TemplatePathInDomain(t)
                    /\ \A i \in DOMAIN t.ips : Len(t.ips[i]) \in {4, 16}
+                   /\ \A i \in DOMAIN t.pIP : NetInDomain(t.pIP[i])
+                   /\ \A i \in DOMAIN t.xIP : NetInDomain(t.xIP[i])
 
 Expected(t) ==
   LET ku     == IF HasExtra(t, "ku") THEN TheExtra(t, "ku").n ELSE t.ku
@@ -266,8 +283,8 @@ Expected(t) ==
        xDNS      |-> One(IF ncx THEN <<>> ELSE t.xDNS),
        pEmail    |-> One(IF ncx THEN <<>> ELSE t.pEmail),
        xEmail    |-> One(IF ncx THEN <<>> ELSE t.xEmail),
-       pIP       |-> One(IF ncx THEN <<>> ELSE t.pIP),
-       xIP       |-> One(IF ncx THEN <<>> ELSE t.xIP),
+       pIP       |-> IF ncx THEN One(<<>>) ELSE ExpNets(t.pIP),
+       xIP       |-> IF ncx THEN One(<<>>) ELSE ExpNets(t.xIP),
        pDir      |-> One(IF ncx THEN <<>> ELSE MapSeq(t.pDir, ExpectedName)),
        xDir      |-> One(IF ncx THEN <<>> ELSE MapSeq(t.xDir, ExpectedName)),
        extOids   |-> SeqOfSet(extOidVariants),
